@@ -151,7 +151,9 @@ func (c *Ctx) ord7() {
 		}
 		for i := ip; i < last; i++ {
 			e := &p.Events[i]
-			if e.Kind == pathx.KAssume && roleKey(e.Val) == "Config.CleanSession" {
+			// (the Config of this attempt — the parameter, whose CleanSession connect cleared
+			// for a reconnect — not the client's own, configured one)
+			if e.Kind == pathx.KAssume && roleKey(e.Val) == "Config.CleanSession" && !strings.HasPrefix(pathx.RoleOfValue(strip(e.Val)).Path, "Client.") {
 				if e.Truth {
 					clean = 1
 				} else {
@@ -169,7 +171,7 @@ func (c *Ctx) ord7() {
 		case flagEq != 0 && flagEq != 1:
 			chk.fail(p, last, "handshake succeeds with CONNACK flags not restricted to 0 or 1")
 		case flagEq == 1 && clean != -1:
-			chk.fail(p, last, "session-present is accepted although a clean session was requested")
+			chk.fail(p, last, "session-present is accepted although a clean session was requested (or the test reads the client's configured CleanSession instead of the one of this attempt: a reconnect with CleanSession configured then refuses every CONNACK that reports the session it asked to keep)")
 		default:
 			chk.pass()
 		}
